@@ -562,11 +562,21 @@ mod query {
              FROM issues
              WHERE repo = ?1
              AND issue->>'$.state.status' = ?2
+             AND issue->>'$.state.reason' IS ?3
              ORDER BY id
             ",
         )?;
+        // The close reason is part of the state: `solved` and `closed` list different issues.
+        let reason = match filter {
+            State::Open => sql::Value::Null,
+            State::Closed { reason } => serde_json::to_value(reason)?
+                .as_str()
+                .map(|r| sql::Value::String(r.to_owned()))
+                .unwrap_or(sql::Value::Null),
+        };
         stmt.bind((1, rid))?;
         stmt.bind((2, sql::Value::String(filter.to_string())))?;
+        stmt.bind((3, reason))?;
         Ok(IssuesIter {
             inner: stmt.into_iter(),
         })
